@@ -325,3 +325,118 @@ __CPROVER_assigns()
 __CPROVER_ensures((__CPROVER_return_value != (int *)0) == (index < QN(this)))
 __CPROVER_ensures(__CPROVER_return_value == (int *)0 || __CPROVER_return_value == &Q_AT(this, index))
 ;
+
+/* ---------------- contiguous sub-arrays and swap ---------------- */
+#define Q_L0(q) ((QN(q) < (q)->_queueSize - (q)->_headIndex) ? QN(q) : (q)->_queueSize - (q)->_headIndex)   /* items before the ring wraps */
+/* GetArrayPointer(0/1): the (at most) two sub-arrays, concatenated, are exactly the sequence */
+int *Queue_int__GetArrayPointerAux(QI *this, unsigned int whichArray, unsigned int *retLength)
+__CPROVER_requires(WF_Q_PRE(this) && __CPROVER_is_fresh(retLength, sizeof(unsigned int)))
+__CPROVER_assigns(*retLength)
+__CPROVER_ensures(whichArray != 0 || ((QN(this) == 0) ? (__CPROVER_return_value == (int *)0 && *retLength == 0) : \
+      (__CPROVER_return_value == &Q_AT(this, 0) && *retLength == Q_L0(this) && (mv_k >= *retLength || __CPROVER_return_value[mv_k] == mv_v0))))
+__CPROVER_ensures(whichArray != 1 || ((QN(this) == 0 || Q_L0(this) == QN(this)) ? (__CPROVER_return_value == (int *)0 && *retLength == 0) : \
+      (__CPROVER_return_value == &this->_queue[0] && *retLength == QN(this) - Q_L0(this) && (mv_k < Q_L0(this) || mv_k >= QN(this) || __CPROVER_return_value[mv_k - Q_L0(this)] == mv_v0))))
+__CPROVER_ensures(whichArray <= 1 || (__CPROVER_return_value == (int *)0 && *retLength == 0))
+;
+/* Swap(a, b) on valid indices: items a and b change places, nothing else moves */
+void Queue_int__Swap(QI *this, unsigned int fromIndex, unsigned int toIndex)
+__CPROVER_requires(WF_Q_PRE(this) && fromIndex < QN(this) && toIndex < QN(this))
+__CPROVER_requires((mv_k != fromIndex || mv_j == toIndex) && (mv_k != toIndex || mv_j == fromIndex))
+Q_FRAME(this)
+__CPROVER_ensures(WF_Q_POST(this) && QN(this) == __CPROVER_old(QN(this)))
+__CPROVER_ensures(mv_k >= QN(this) || Q_AT(this, mv_k) == ((mv_k == fromIndex || mv_k == toIndex) ? mv_vj : mv_v0))
+;
+
+/* ---------------- more queries and "with default" accessors (the default item of Queue<int32> is the ghost mv_default_int) ---------------- */
+_Bool Queue_int__StartsWith__item(QI *this, int *prefix)
+__CPROVER_requires(WF_Q_PRE(this) && __CPROVER_is_fresh(prefix, sizeof(int)) && mv_k == 0)
+__CPROVER_assigns()
+__CPROVER_ensures(__CPROVER_return_value == (QN(this) > 0 && mv_v0 == *prefix))
+;
+_Bool Queue_int__EndsWith__item(QI *this, int *suffix)
+__CPROVER_requires(WF_Q_PRE(this) && __CPROVER_is_fresh(suffix, sizeof(int)) && (QN(this) == 0 || mv_k == QN(this) - 1))
+__CPROVER_assigns()
+__CPROVER_ensures(__CPROVER_return_value == (QN(this) > 0 && mv_v0 == *suffix))
+;
+_Bool Queue_int__Contains(QI *this, int *item, unsigned int startAt, unsigned int endAtPlusOne)
+__CPROVER_requires(WF_Q_PRE(this) && __CPROVER_is_fresh(item, sizeof(int)))
+__CPROVER_assigns()
+/* an occurrence inside the window is never missed; no items, or an empty window: false */
+__CPROVER_ensures(!(mv_k >= startAt && mv_k < endAtPlusOne && mv_k < QN(this) && mv_v0 == *item) || __CPROVER_return_value)
+__CPROVER_ensures(!__CPROVER_return_value || (QN(this) > 0 && startAt < QN(this) && startAt < endAtPlusOne))
+;
+_Bool Queue_int__IsNormalized(QI *this)
+__CPROVER_requires(WF_Q_PRE(this))
+__CPROVER_assigns()
+/* normalised = the items are one contiguous block in memory */
+__CPROVER_ensures(__CPROVER_return_value == (QN(this) == 0 || Q_L0(this) == QN(this)))
+;
+struct status_t Queue_int__GetItemAt__ret(QI *this, unsigned int index, int *returnItem)
+__CPROVER_requires(WF_Q_PRE(this) && __CPROVER_is_fresh(returnItem, sizeof(int)) && mv_k == index)
+__CPROVER_assigns(*returnItem)
+__CPROVER_ensures(ST_OK(__CPROVER_return_value) == (index < QN(this)))
+__CPROVER_ensures(ST_OK(__CPROVER_return_value) ? *returnItem == mv_v0 : *returnItem == __CPROVER_old(*returnItem))
+;
+int *Queue_int__GetWithDefault__1(QI *this, unsigned int index)
+__CPROVER_requires(WF_Q_PRE(this) && mv_k == index)
+__CPROVER_assigns()
+__CPROVER_ensures(*__CPROVER_return_value == ((index < QN(this)) ? mv_v0 : mv_default_int))
+;
+int *Queue_int__HeadWithDefault__0(QI *this)
+__CPROVER_requires(WF_Q_PRE(this) && mv_k == 0)
+__CPROVER_assigns()
+__CPROVER_ensures(*__CPROVER_return_value == ((QN(this) > 0) ? mv_v0 : mv_default_int))
+;
+int *Queue_int__TailWithDefault__0(QI *this)
+__CPROVER_requires(WF_Q_PRE(this) && (QN(this) == 0 || mv_k == QN(this) - 1))
+__CPROVER_assigns()
+__CPROVER_ensures(*__CPROVER_return_value == ((QN(this) > 0) ? mv_v0 : mv_default_int))
+;
+int Queue_int__RemoveHeadWithDefault(QI *this)
+__CPROVER_requires(WF_Q_PRE(this) && mv_j == 0)
+Q_FRAME(this)
+__CPROVER_ensures(WF_Q_POST(this))
+__CPROVER_ensures(__CPROVER_old(QN(this)) == 0 ? (__CPROVER_return_value == mv_default_int && QN(this) == 0) : \
+      (__CPROVER_return_value == mv_vj && QN(this) == __CPROVER_old(QN(this)) - 1 && (mv_k >= QN(this) || Q_AT(this, mv_k) == mv_v1)))
+;
+int Queue_int__RemoveTailWithDefault(QI *this)
+__CPROVER_requires(WF_Q_PRE(this) && (QN(this) == 0 || mv_j == QN(this) - 1))
+Q_FRAME(this)
+__CPROVER_ensures(WF_Q_POST(this))
+__CPROVER_ensures(__CPROVER_old(QN(this)) == 0 ? (__CPROVER_return_value == mv_default_int && QN(this) == 0) : \
+      (__CPROVER_return_value == mv_vj && QN(this) == __CPROVER_old(QN(this)) - 1 && (mv_k >= QN(this) || Q_AT(this, mv_k) == mv_v0)))
+;
+int Queue_int__RemoveItemAtWithDefault(QI *this, unsigned int index)
+__CPROVER_requires(WF_Q_PRE(this) && mv_j == index)
+Q_FRAME(this)
+__CPROVER_ensures(WF_Q_POST(this))
+__CPROVER_ensures(index >= __CPROVER_old(QN(this)) ? (__CPROVER_return_value == mv_default_int && Q_SAME_VIEW(this)) : \
+      (__CPROVER_return_value == mv_vj && QN(this) == __CPROVER_old(QN(this)) - 1 && (mv_k >= QN(this) || Q_AT(this, mv_k) == ((mv_k < index) ? mv_v0 : mv_v1))))
+;
+void Queue_int__ReplaceAllItems(QI *this, int *newItem)
+__CPROVER_requires(WF_Q_PRE(this) && __CPROVER_is_fresh(newItem, sizeof(int)))
+Q_FRAME(this)
+__CPROVER_ensures(WF_Q_POST(this) && QN(this) == __CPROVER_old(QN(this)) && (mv_k >= QN(this) || Q_AT(this, mv_k) == *newItem))
+;
+/* operator==: true exactly for equal sequences (stated at the ghost index: true => same length and same item k; a difference => false) */
+_Bool Queue_int__eq(QI *this, QI *rhs)
+__CPROVER_requires(WF_Q_PRE(this) && WF_Q(rhs) && rhs->_queueSize <= MV_QCAP && (mv_k >= QN(rhs) || Q_AT(rhs, mv_k) == mv_vj))
+__CPROVER_assigns()
+__CPROVER_ensures(!__CPROVER_return_value || (QN(this) == QN(rhs) && (mv_k >= QN(this) || mv_v0 == mv_vj)))
+__CPROVER_ensures(__CPROVER_return_value || QN(this) != QN(rhs) || QN(this) > 0)
+__CPROVER_ensures(!(QN(this) == QN(rhs) && mv_k < QN(this) && mv_v0 != mv_vj) || !__CPROVER_return_value)
+;
+/* ShrinkToFit / EnsureCanAdd: storage management never changes the sequence */
+struct status_t Queue_int__ShrinkToFit(QI *this, unsigned int numExtraSlots)
+__CPROVER_requires(WF_Q_PRE(this) && numExtraSlots <= 2)
+Q_FRAME(this)
+__CPROVER_ensures(WF_Q_POST(this) && Q_SAME_VIEW(this))
+/* exactly the requested number of slots (never fewer than the inline array holds, unless that is what was already allocated) */
+__CPROVER_ensures(!ST_OK(__CPROVER_return_value) || this->_queueSize == QN(this) + numExtraSlots || (QN(this) + numExtraSlots < Q_SMALLN && this->_queueSize == Q_SMALLN))
+;
+struct status_t Queue_int__EnsureCanAdd(QI *this, unsigned int numExtraSlots)
+__CPROVER_requires(WF_Q_PRE(this) && numExtraSlots <= 2)
+Q_FRAME(this)
+__CPROVER_ensures(WF_Q_POST(this) && Q_SAME_VIEW(this))
+__CPROVER_ensures(!ST_OK(__CPROVER_return_value) || this->_queueSize >= QN(this) + numExtraSlots)
+;
